@@ -67,6 +67,10 @@ def one(ctx, pts, kind, queries, family):
                 ymax = float(np.max(np.abs(y))) + 1e-300
                 for e_f, e_q, (a, b) in zip(errs, ex, zip(red, red[1:])):
                     seg = y[a:b + 1]
+                    if float(np.max(np.abs(pts[a:b + 1, 0]))) > 1e4 * float(pts[b, 0] - pts[a, 0]):
+                        # y_hat = m*x + b with |b| ~ |m|*max|x|: its rounding noise is eps*max|x|/range relative, far above the 1e-9 of this comparison
+                        ctx.tag('exact-segment-comparison-skipped(large x offset: the line m*x+b is ill-conditioned)')
+                        continue
                     if kind != 'r2' and np.any(seg < 2.0 ** -10):
                         ctx.tag('ratio-metric-near-zero-y(exact comparison skipped: rounding of y_hat is amplified by the eps guard)')
                         continue
@@ -162,6 +166,17 @@ def run(ctx):
             pts[rng.randrange(0, n), 1] += rng.choice([0.25, -0.25, 1.0])
             fam = 'flat+1'
         kind = rng.choice(KINDS)
+        u2 = rng.random()
+        if u2 < 0.12:
+            # a large base line with a small swing (byte counters, timestamps): R2 = 1 - rss/tss needs the CENTRED total sum of squares
+            pts = pts.copy()
+            pts[:, 1] += rng.choice([2.0 ** 20, 2.0 ** 30])
+            fam += '@yoff'
+            if rng.random() < 0.6:
+                kind = 'r2'
+        elif u2 < 0.2:
+            pts, vt = gen.magnitude(rng, pts, 1.0, ('xytiny30', 'ytiny30', 'xoff30', 'xyhuge30'))
+            fam += vt
         base = gen.random_subset_with_ends(rng, n)
         queries = []
         for _ in range(rng.randrange(2, 9)):
